@@ -1,4 +1,5 @@
 """composeinfo: case descriptions, builder (public API only), snapshots, reference document model."""
+import copy
 import random
 
 from hypothesis import strategies as st
@@ -185,6 +186,23 @@ def build_ci(desc, plan=0):
         else:
             attach(ci, ci.variants, desc["variants"], rnd, children_first=bool(plan and plan % 2))
     return ci
+
+
+def modify_ci(desc, ci):
+    """a valid change of an EXISTING object through its public attributes; returns the description of what it holds afterwards"""
+    d = copy.deepcopy(desc)
+    d["compose"]["respin"] += 1
+    d["release"]["name"] = d["release"]["name"] + "x"
+    ci.compose.respin, ci.release.name = d["compose"]["respin"], d["release"]["name"]
+
+    def rename(nodes, container):
+        for n in nodes:
+            n["name"] = n["name"] + "!"
+            v = container.variants[n["uid"] if n["uid"] in container.variants else n["id"]]
+            v.name = n["name"]
+            rename(n["children"], v)
+    rename(d["variants"], ci.variants)
+    return d
 
 
 # ---------------------------------------------------------------------------------------------------------------
